@@ -36,8 +36,9 @@ SetMin(S) == CHOOSE x \in S : \A y \in S : x <= y
 
 (* ======================================================================== C21: tip-changing operations ==== *)
 (* An operation o on a target branch with tip t (append-only flag o.ao), given a source / requested revision s:
-     o.op    "pull" "push"      target.pull(source) / source.push(target); o.ow overwrite, o.stop stop_revision
-                                (Null = none), o.bound: the target is bound to a master branch with the same tip
+     o.op    "pull" "push"      target.pull(source) / source.push(target); o.ow the overwrite argument in one of its
+                                forms (0 False, 1 True, 2 {"history"}, 3 {"tags"}, 4 {"history", "tags"}), o.stop
+                                stop_revision (Null = none), o.bound: the target is bound to a master with the same tip
              "update"           the target is bound to a master whose tip is s; target.update()
              "genhist"          target.generate_revision_history(s, last_rev = t if o.lr)
              "setlast"          target.set_last_revision_info(revno of s, s)
@@ -57,6 +58,11 @@ Relation(P, a, b) ==
     LET h == HeadsF(P, {a, b})
     IN IF h = {b} THEN "b_descends_from_a" ELSE IF h = {a, b} THEN "diverged" ELSE "a_descends_from_b"
 
+\* branch._fix_overwrite_type + the callers' ("history" in overwrite): only these forms of the overwrite argument
+\* overwrite HISTORY; {"tags"} (pull --overwrite-tags) must leave the divergence check in force
+OwForms == 0..4
+OwHistory(ow) == ow \in {1, 2, 4}
+OwTags(ow) == ow \in {1, 3, 4}
 \* GenericInterBranch._update_revisions(stop_revision, overwrite): fetch, classify, set the tip
 UpdateRevisions(P, t, s, stop, ow, ao) ==
     IF stop = Null /\ s = Null THEN Same(P, t, "")                        \* source has no commits
@@ -72,8 +78,8 @@ PushRevisions(P, t, s, stop, ow, ao) ==
 
 NewRev(P) == Len(P) + 1
 OpOut(P, t, s, o) ==
-    CASE o.op = "pull"     -> UpdateRevisions(P, t, s, o.stop, o.ow, o.ao)
-      [] o.op = "push"     -> PushRevisions(P, t, s, o.stop, o.ow, o.ao)
+    CASE o.op = "pull"     -> UpdateRevisions(P, t, s, o.stop, OwHistory(o.ow), o.ao)
+      [] o.op = "push"     -> PushRevisions(P, t, s, o.stop, OwHistory(o.ow), o.ao)
       [] o.op = "update"   -> IF s = Null THEN Same(P, t, "") ELSE SetLast(P, t, o.ao, s)    \* pull(master, overwrite)
       [] o.op = "genhist"  -> IF o.lr /\ ~IsAnc0(P, t, s) THEN Same(P, t, "DivergedBranches")
                               ELSE SetLast(P, t, o.ao, s)
@@ -92,17 +98,19 @@ SpecObs(P, t, s, o) ==
 \* the operations exercised for a pair of tips
 Op(k, ow, ao, stop, lr, bound) == [op |-> k, ow |-> ow, ao |-> ao, stop |-> stop, lr |-> lr, bound |-> bound]
 OpsOf(P, t, s) ==
-    {Op(k, w, a, Null, FALSE, FALSE) : k \in {"pull", "push"}, w \in BOOLEAN, a \in BOOLEAN}
-    \cup {Op("pull", w, FALSE, x, FALSE, FALSE) : w \in BOOLEAN, x \in Anc0(P, s) \ {s}}
-    \cup {Op("push", FALSE, a, x, FALSE, FALSE) : a \in BOOLEAN, x \in Anc0(P, s) \ {s}}
-    \cup {Op(k, FALSE, FALSE, Null, FALSE, TRUE) : k \in {"pull", "push"}}
-    \cup {Op("update", FALSE, a, Null, FALSE, FALSE) : a \in BOOLEAN}
-    \cup (IF s = Null THEN {} ELSE {Op("genhist", FALSE, a, Null, FALSE, FALSE) : a \in BOOLEAN})
-    \cup (IF s = Null \/ t = Null THEN {} ELSE {Op("genhist", FALSE, FALSE, Null, TRUE, FALSE)})
-    \cup {Op("setlast", FALSE, a, Null, FALSE, FALSE) : a \in BOOLEAN}
+    {Op(k, w, FALSE, Null, FALSE, FALSE) : k \in {"pull", "push"}, w \in OwForms}
+    \cup {Op(k, w, TRUE, Null, FALSE, FALSE) : k \in {"pull", "push"}, w \in {0, 1, 3}}
+    \cup {Op("pull", w, FALSE, x, FALSE, FALSE) : w \in {0, 1, 3}, x \in Anc0(P, s) \ {s}}
+    \cup {Op("push", 0, a, x, FALSE, FALSE) : a \in BOOLEAN, x \in Anc0(P, s) \ {s}}
+    \cup {Op("push", w, FALSE, x, FALSE, FALSE) : w \in {2, 3}, x \in Anc0(P, s) \ {s}}
+    \cup {Op(k, w, FALSE, Null, FALSE, TRUE) : k \in {"pull", "push"}, w \in {0, 3}}
+    \cup {Op("update", 0, a, Null, FALSE, FALSE) : a \in BOOLEAN}
+    \cup (IF s = Null THEN {} ELSE {Op("genhist", 0, a, Null, FALSE, FALSE) : a \in BOOLEAN})
+    \cup (IF s = Null \/ t = Null THEN {} ELSE {Op("genhist", 0, FALSE, Null, TRUE, FALSE)})
+    \cup {Op("setlast", 0, a, Null, FALSE, FALSE) : a \in BOOLEAN}
     \cup (IF t # Null /\ s # t /\ s \in LeftSet(P, t) \cup {Null}
-          THEN {Op("uncommit", FALSE, a, Null, FALSE, FALSE) : a \in BOOLEAN} ELSE {})
-    \cup (IF s = t \/ t = Null THEN {Op("commit", FALSE, a, Null, FALSE, FALSE) : a \in BOOLEAN} ELSE {})
+          THEN {Op("uncommit", 0, a, Null, FALSE, FALSE) : a \in BOOLEAN} ELSE {})
+    \cup (IF s = t \/ t = Null THEN {Op("commit", 0, a, Null, FALSE, FALSE) : a \in BOOLEAN} ELSE {})
 
 (* ---- the laws of C21 on an observed outcome r (record as SpecObs) of operation o on (P, t, s) *)
 PAfter(P, r) == IF r.tip = NewRev(P) THEN Append(P, r.np) ELSE P      \* the graph including a newly committed tip
@@ -111,7 +119,7 @@ Requested(s, o) == IF o.stop = Null THEN s ELSE o.stop
 \* "without overwrite, pull and push move the tip to the requested revision when it descends from the current
 \*  tip, leave it when the target already contains it, and otherwise fail with a divergence error leaving it"
 LawTip(P, t, s, o, r) ==
-    (o.op \in {"pull", "push"} /\ ~o.ow) =>
+    (o.op \in {"pull", "push"} /\ ~OwHistory(o.ow)) =>
         LET q == Requested(s, o)
         IN IF q = Null \/ q \in Anc0(P, t) THEN r.tip = t /\ r.exc = ""               \* already contained
            ELSE IF IsAnc0(P, t, q)                                                    \* q descends from the tip
@@ -146,9 +154,16 @@ C21Failed(P, t, s, o, r) == {n \in SeqRange(C21Laws) : ~C21Law(n, P, t, s, o, r)
      k = "nodotted"         a dotted revno that names nothing   k = "tag" a     "tag:<tag set on a>", "notag"
      k = "mainline" a       "mainline:revid:<a>"                k = "ancestor" a  "ancestor:<branch with tip a>"
      k = "before" a, b      "before:" + the specifier [k |-> b, a |-> a]
+   Specifiers that carry ANOTHER branch (o = the tip of that branch, Null = a branch without commits; o = -1: none):
+     k = "bnum" a, o        "revno:a:<branch with tip o>"       k = "bneg" a, o   "-a:<branch with tip o>"
+     k = "mainline" a, b, o "mainline:" + [k |-> b, a, o]       k = "before" a, b, o  likewise (b = "bnum" or "bneg")
+     k = "branch" a         "branch:<branch with tip a>"        k = "submit" a    "submit:", submit branch has tip a
+   The inner specifier is resolved in the branch it names; mainline: / before: / ancestor: / submit: relate the
+   result to the CONTEXT branch (its mainline, its repository, its tip).
    Meaning = the set of acceptable results (a revision, Null for null:, a ghost id, or ERR for "does not resolve").
    More than one acceptable result only where the definition is silent (see DESIGN C22). *)
-Spec(k, a, b) == [k |-> k, a |-> a, b |-> b]
+SpecO(k, a, b, o) == [k |-> k, a |-> a, b |-> b, o |-> o]
+Spec(k, a, b) == SpecO(k, a, b, -1)
 Present(P, r) == r \in DOMAIN P
 
 \* first (oldest) mainline revision that has r in its ancestry: graph.find_lefthand_merger
@@ -174,29 +189,51 @@ Base(P, tip, k, a) ==
          [] k \in {"revid", "dotted", "tag"} -> a
          [] OTHER -> ERR
 
+\* the revision a number denotes in the OTHER branch (tip o) it is qualified with
+BaseO(P, k, a, o) ==
+    IF o = Null THEN (IF k = "bnum" /\ a = 0 THEN Null ELSE ERR)
+    ELSE Base(P, o, IF k = "bnum" THEN "num" ELSE "neg", a)
+Inner(P, tip, sp) == IF sp.b \in {"bnum", "bneg"} THEN BaseO(P, sp.b, sp.a, sp.o) ELSE Base(P, tip, sp.b, sp.a)
+CommonMeaning(P, tip, other) ==
+    LET ca == AncG(P, tip) \cap AncG(P, other)                 \* common ancestors, ghosts included
+        l == HeadsF(P, ca)
+        u == UniqueLcaOf(P, {tip, other})
+    IN IF other = Null \/ ca = {} THEN {ERR}
+       ELSE IF Cardinality(l) = 1 THEN (IF l \subseteq DOMAIN P THEN l ELSE l \cup {ERR})    \* a ghost cannot be "in history"
+       ELSE ca \cup (IF u = Null \/ u \notin DOMAIN P THEN {ERR} ELSE {})
+
 Meaning(P, tip, sp) ==
     CASE sp.k \in {"num", "neg"} -> {Base(P, tip, sp.k, sp.a)}
+      [] sp.k \in {"bnum", "bneg"} -> {BaseO(P, sp.k, sp.a, sp.o)}
+      [] sp.k = "branch" -> IF sp.a = Null THEN {ERR} ELSE {sp.a}
+      [] sp.k \in {"ancestor", "submit"} -> CommonMeaning(P, tip, sp.a)
+      [] sp.k = "mainline" /\ sp.b # "" ->
+            LET r == Inner(P, tip, sp) IN IF r = ERR \/ r = Null THEN {ERR} ELSE {FirstMerger(P, tip, r)}
       [] sp.k = "last" -> IF sp.a = RevnoOf(P, tip) + 1 THEN {Null, ERR} ELSE {Base(P, tip, sp.k, sp.a)}
       [] sp.k = "revid" -> IF Present(P, sp.a) THEN {sp.a} ELSE {sp.a, ERR}          \* ghost / unknown id
       [] sp.k = "dotted" -> {sp.a}
       [] sp.k \in {"nodotted", "notag"} -> {ERR}
       [] sp.k = "tag" -> {sp.a}
-      [] sp.k = "mainline" -> IF Present(P, sp.a) THEN {FirstMerger(P, tip, sp.a)}
+      [] sp.k = "mainline" /\ sp.b = "" -> IF Present(P, sp.a) THEN {FirstMerger(P, tip, sp.a)}
                               ELSE {ERR} \cup {FirstMerger(P, tip, x) : x \in {y \in Anc0(P, tip) : sp.a \in ParentSet(P, y)}}
-      [] sp.k = "ancestor" ->
-            LET ca == AncG(P, tip) \cap AncG(P, sp.a)                 \* common ancestors, ghosts included
-                l == HeadsF(P, ca)
-                u == UniqueLcaOf(P, {tip, sp.a})
-            IN IF sp.a = Null \/ ca = {} THEN {ERR}
-               ELSE IF Cardinality(l) = 1 THEN (IF l \subseteq DOMAIN P THEN l ELSE l \cup {ERR})    \* a ghost cannot be "in history"
-               ELSE ca \cup (IF u = Null \/ u \notin DOMAIN P THEN {ERR} ELSE {})
       [] sp.k = "before" ->
-            LET b == Base(P, tip, sp.b, sp.a)
+            LET b == Inner(P, tip, sp)
             IN IF b = ERR \/ b = Null \/ ~Present(P, b) THEN {ERR}
                ELSE IF P[b] = <<>> THEN {Null, ERR}                    \* the two resolution paths differ here
                ELSE IF ~Present(P, P[b][1]) THEN {P[b][1], ERR}
                ELSE {P[b][1]}
 
+\* other branches worth naming inside a specifier: those whose tip is not on the context mainline (merged, diverged,
+\* descendant) and the branch without commits
+\* (of several, the oldest and the newest: every resolution opens the named branch)
+BranchOthers(P, tip, others) ==
+    LET C == {s \in others : s # Null /\ s \notin LeftSet(P, tip)}
+    IN (others \cap {Null}) \cup (IF C = {} THEN {} ELSE {SetMin(C), SetMax(C)})
+OtherSpecs(P, s) ==
+    LET m == RevnoOf(P, s)
+    IN {SpecO("bnum", a, "", s) : a \in 0..(m + 1)} \cup {SpecO("bneg", a, "", s) : a \in {1, m + 1}}
+       \cup {SpecO(k, a, "bnum", s) : k \in {"mainline", "before"}, a \in 1..m}
+       \cup {SpecO(k, 1, "bneg", s) : k \in {"mainline", "before"}}
 SpecsOf(P, tip, others) ==
     LET n == RevnoOf(P, tip)
         A == Anc0(P, tip)
@@ -208,6 +245,9 @@ SpecsOf(P, tip, others) ==
        \cup {Spec("ancestor", a, "") : a \in others}
        \cup {Spec("before", a, "num") : a \in 1..(n + 1)} \cup {Spec("before", a, "revid") : a \in DOMAIN P}
        \cup {Spec("before", a, "dotted") : a \in A} \cup {Spec("before", a, "tag") : a \in DOMAIN P}
+       \cup {Spec("branch", s, "") : s \in BranchOthers(P, tip, others)}
+       \cup {Spec("submit", s, "") : s \in BranchOthers(P, tip, others)}
+       \cup UNION {OtherSpecs(P, s) : s \in BranchOthers(P, tip, others)}
 
 (* ---- the laws of C22 on an observation ob of the branch (P, tip):
      ob.getrev   <<get_rev_id(0), ..., get_rev_id(revno + 1)>>                 (ERR = exception)
